@@ -4,11 +4,15 @@
      src/vtlengine/duckdb_transpiler/io/_execution.py   (execute_queries, load/cleanup_scheduled_datasets, fetch_result)
      src/vtlengine/Interpreter/__init__.py              (visit_Start: dataset_output, registry)
    as terms of Model/Effects.v.  Definitions only.
-   Two variants are kept apart:
-     *_impl : FAITHFUL to the current code (acquisition before the `try`, globals defaulting to their previous value,
-              dataset_output cleared only on the success path);
-     *_spec : what the property asks for (acquisition inside the try whose finally releases it; globals recomputed
-              from the environment/defaults on every run; dataset_output restored by a finally).
+   Two families of terms:
+     *_impl       : FAITHFUL to the CURRENT code (session directory, connection and configuration inside the try whose
+                    finally closes / removes them; set_decimal_config validates locals taken from the environment or the
+                    documented defaults and publishes the globals afterwards; visit_Start clears dataset_output in a finally).
+                    These are the terms the theorems of Props/C16.v are about and the engine is compared with on every run.
+     *_before_fix : the code as it was before the repair commits (acquisition before the `try`, globals defaulting to
+                    their previous value, dataset_output cleared only on the success path).  Kept ONLY as the object of
+                    the `C16_before_fix_*` regression-witness theorems: if the engine ever behaves like these again, the
+                    correspondence fails and the leak / history dependence is reported as a violation.
    Every Step is one guarded `_verif.event(...)` of the engine (same order), except LSem/LValidate which stand for
    the semantic analysis of one statement / a loader error and are reached through real inputs, not through the hook. *)
 From Coq Require Import List Bool Arith ZArith.
@@ -27,6 +31,8 @@ Definition GWidth : glob := 0%nat.   (* Config.config.DECIMAL_WIDTH *)
 Definition GScale : glob := 1%nat.   (* Config.config.DECIMAL_SCALE *)
 Definition GDsOut : glob := 2%nat.   (* vtlengine.Exceptions.dataset_output: 0 = None, i = output of statement i *)
 Definition GRegistry : glob := 3%nat. (* ViralPropagation._current_registry: 0 = never set, 1 = this run's registry *)
+Definition LWidth : glob := 4%nat.   (* local `width` of set_decimal_config (always written before it is read) *)
+Definition LScale : glob := 5%nat.   (* local `scale` of set_decimal_config *)
 
 (* step labels = event kinds of vtlengine._verif *)
 Definition LMkdir : label := 0%nat.      (* conn:mkdir_session *)
@@ -65,25 +71,29 @@ Fixpoint sem_stmts (i : nat) (n : nat) : prog :=
            (Seq (Write GDsOut 0) (sem_stmts (S i) n')))
   end.
 
+(* _visit_start_impl *)
 Definition semantic_body (n : nat) : prog := Seq (Write GRegistry 1) (sem_stmts 0 n).
 Definition restored : list (glob * Z) := [(GDsOut, 0)].
+(* visit_Start: try: _visit_start_impl(node) finally: dataset_output = None *)
 Definition semantic_impl (n : nat) : prog := TryFinally (semantic_body n) (resetp restored).
 
 (* ---- set_decimal_config -------------------------------------------------------------------------------------- *)
 Definition opt_write (g : glob) (e : option Z) : prog := match e with Some v => Write g v | None => Skip end.
 
-(* faithful: `int(os.getenv(VAR, DECIMAL_WIDTH))` keeps the previous global when the variable is unset; the scale is
-   checked against 6..15; the width only against its minimum (the upper-bound test compares DECIMAL_SCALE with 38). *)
+(* before the fix: `int(os.getenv(VAR, DECIMAL_WIDTH))` kept the previous global when the variable was unset; the scale
+   was checked against 6..15; the width only against its minimum (the upper-bound test compared DECIMAL_SCALE with 38). *)
 Definition decimal_before_fix (envW envS : option Z) : prog :=
   seqs [opt_write GWidth envW; opt_write GScale envS;
         Check GScale (between 6 15) [GDsOut];
         Check GWidth (fun w => 6 <=? w) [GDsOut]].
 
+(* current code: locals from the environment or the documented defaults, both validated, globals published afterwards *)
 Definition dflt (e : option Z) (d : Z) : Z := match e with Some v => v | None => d end.
 Definition decimal_impl (envW envS : option Z) : prog :=
-  seqs [Write GWidth (dflt envW DEFAULT_WIDTH); Write GScale (dflt envS DEFAULT_SCALE);
-        Check GScale (between 6 15) [GDsOut];
-        Check GWidth (between 6 38) [GDsOut]].
+  seqs [Write LWidth (dflt envW DEFAULT_WIDTH); Write LScale (dflt envS DEFAULT_SCALE);
+        Check LScale (between 6 15) [GDsOut];
+        Check LWidth (between 6 38) [GDsOut];
+        Write GWidth (dflt envW DEFAULT_WIDTH); Write GScale (dflt envS DEFAULT_SCALE)].
 
 (* ---- execute_queries ----------------------------------------------------------------------------------------- *)
 Inductive load_kind := LoadDf | LoadCsv.
@@ -118,7 +128,7 @@ Definition acquire_db (fb : bool) : prog := if fb then Seq (Acquire RConn) (Acqu
 (* finally: try: conn.close() finally: shutil.rmtree(session_dir) *)
 Definition conn_finally : prog := TryFinally (Release RConn) (Seq (Release RDbFile) (Release RDir)).
 
-(* faithful: mkdir, connect, configure and SET temp_directory all happen BEFORE the try *)
+(* before the fix: mkdir, connect, configure and SET temp_directory all happened BEFORE the try *)
 Definition conn_pre (fb : bool) : prog :=
   seqs [Step LMkdir []; Acquire RDir; Step LConnect []; acquire_db fb;
         Step LSettings []; Step LUdf []; Step LDecimal []].
@@ -126,7 +136,8 @@ Definition conn_pre (fb : bool) : prog :=
 Definition conn_before_fix (fb : bool) (dec body : prog) : prog :=
   Seq (conn_pre fb) (Seq dec (Seq (Step LSetTemp []) (TryFinally body conn_finally))).
 
-(* spec: the same steps in the same order, every acquisition inside the try whose finally releases it *)
+(* current code: the same steps in the same order, every acquisition inside the try whose finally releases it
+   (create_configured_connection additionally closes the connection itself when configure fails: same live set) *)
 Definition conn_impl (fb : bool) (dec body : prog) : prog :=
   Seq (Step LMkdir [])
       (TryFinally
@@ -147,7 +158,7 @@ Definition validate_prog : prog := Step LValidate [GDsOut].
 (* ---- predictions used by the theorems and by the correspondence ---------------------------------------------- *)
 Definition leakset (fb : bool) : list res := if fb then [RDbFile; RConn; RDir] else [RConn; RDir].
 
-(* leak of the faithful connection skeleton when the fault hits its k-th event *)
+(* leak of the before-fix connection skeleton when the fault hits its k-th event *)
 Definition predicted_leak (fb : bool) (k : nat) : list res :=
   match k with
   | 0%nat => []
@@ -156,13 +167,16 @@ Definition predicted_leak (fb : bool) (k : nat) : list res :=
   | _ => []
   end.
 
+Definition valid_cfg (envW envS : option Z) : bool :=
+  between 6 15 (dflt envS DEFAULT_SCALE) && between 6 38 (dflt envW DEFAULT_WIDTH).
+
 Definition valid_cfg_before_fix (envW envS : option Z) (G : glob -> Z) : bool :=
   between 6 15 (dflt envS (G GScale)) && (6 <=? dflt envW (G GWidth)).
 
 Definition G0 : glob -> Z := fun g =>
   if Nat.eqb g GWidth then DEFAULT_WIDTH else if Nat.eqb g GScale then DEFAULT_SCALE else 0.
 
-(* the API calls of the spec skeleton: a run of any shape / environment setting, or a loader that may raise *)
+(* the API calls of the current skeleton: a run of any shape / environment setting, or a loader that may raise *)
 Inductive api_call : prog -> Prop :=
 | AC_run : forall n fb envW envS ss nfinal save, api_call (run_impl n fb envW envS (exec_queries ss nfinal save))
 | AC_validate : api_call validate_prog.
